@@ -140,22 +140,19 @@ func newRelay(
 	return ret
 }
 
-// relayFrames reads frames from `f.src` to `f.dest` until an error occurs or the connection closes.
-func (r *relay) relayFrames(closing chan bool) error {
+// relayFrames reads frames from `f.src` to `f.dest` until an error occurs, the connection closes
+// or `closing` is closed. `sessionDone` is closed once the relays of both directions have returned
+// from this method.
+func (r *relay) relayFrames(closing chan bool, sessionDone chan struct{}) error {
 	// Shutting down producer-consumers linked by channels is subtle. In this function, the writer
-	// goroutine consumes frames from `r.output`, which are populated by the reader goroutine. If
-	// the writer shuts down before the reader, the reader may deadlock on inserting frames into
-	// `r.output`. The writer therefore has to keep processing until the reader is done. This is
-	// coordinated via `readerDone`.
+	// goroutine consumes frames from `r.output`, which are populated by the reader goroutines of
+	// both directions (the peer queues frames here when a window opens). If the writer shut down
+	// before them, they could deadlock on inserting frames into `r.output`. The writer therefore
+	// keeps consuming until both readers are done, which is communicated via `sessionDone`.
 	//
 	// A second subtlely is that errors on the writer goroutine should stop the reader goroutine.
-	// This is communicated via `writeErr`. To avoid deadlocks, even after the error occurs, the
-	// writer thread must still wait until `readerDone` has been communicated to stop processing.
-
-	// Communicates to the consuming writer goroutine that the reader (the calling goroutine of this
-	// method) is done.
-	readerDone := make(chan struct{})
-	defer func() { readerDone <- struct{}{} }()
+	// This is communicated via `writeErr`. Even after the error occurs, the writer goroutine keeps
+	// draining the channel without sending.
 
 	// Communicates errors occuring on the writer goroutine to the reader goroutine.
 	writerErr := make(chan error, 1)
@@ -176,7 +173,7 @@ func (r *relay) relayFrames(closing chan bool) error {
 				}
 				// Once an output error has occurred, the remaining frames are drained from the channel
 				// without sending them.
-			case <-readerDone:
+			case <-sessionDone:
 				return
 			}
 		}
